@@ -84,11 +84,20 @@ let parse_pat_ro (s : string) : bool list =
   else List.init (String.length s) (fun i ->
       match s.[i] with 'F' -> true | 'B' -> false | _ -> fail_parse "pat" s)
 
+(* F<k>~<sink> = Iterator::nth(k) (B: nth_back): k items passed over - destroyed, not reported (KSkip) -
+   then an ordinary call whose item goes to <sink> *)
 let parse_pat (s : string) : (bool * sink) list =
   if s = "-" then []
-  else List.map (fun item ->
+  else List.concat_map (fun item ->
       let front = match item.[0] with 'F' -> true | 'B' -> false | _ -> fail_parse "pat" s in
-      (front, parse_sink (String.sub item 1 (String.length item - 1)))) (split ',' s)
+      let rest = String.sub item 1 (String.length item - 1) in
+      let is_digit ch = ch >= '0' && ch <= '9' in
+      match String.index_opt rest '~' with
+      | Some p when p > 0 && String.for_all is_digit (String.sub rest 0 p) ->
+          let k = int_of_string (String.sub rest 0 p) in
+          List.init k (fun _ -> (front, KSkip))
+          @ [(front, parse_sink (String.sub rest (p + 1) (String.length rest - p - 1)))]
+      | _ -> [(front, parse_sink rest)]) (split ',' s)
 
 let parse_pat_nth (s : string) : (bool * n) list =
   if s = "-" then []
@@ -123,7 +132,10 @@ let parse_op (toks : string list) : op =
       ODrain (parse_api a, nat v, parse_bound sb, parse_bound eb, parse_pat p, parse_fin f)
   | ["splice"; a; v; sb; eb; p; f; rk; n; w; cl] ->
       OSplice (parse_api a, nat v, parse_bound sb, parse_bound eb, parse_pat p, parse_fin f,
-               parse_rk rk, nn n, (if w = "-" then None else Some (nn w)), nn cl)
+               parse_rk rk, nn n, (if w = "-" then None else Some (nn w)),
+               (* "A/B": the replacement iterator answers A to the first len() question and B to later ones;
+                  Splice::drop asks once, the model takes the first answer *)
+               nn (match split '/' cl with a :: _ -> a | [] -> cl))
   | ["clone"; v; d] -> OClone (nat v, nat d)
   | ["clone_empty"; v; d] -> OCloneEmpty (nat v, nat d)
   | ["clone_empty_in"; v; d; bk] -> OCloneEmptyIn (nat v, nat d, parse_bk bk)
